@@ -340,11 +340,17 @@ class Quantity {
     }
 
     // Modulo operator (defined only for integral rep).
-    friend constexpr Quantity operator%(Quantity a, Quantity b) { return {a.value_ % b.value_}; }
+    //
+    // Like `+` and `-` above, the result has whatever rep the raw operator produces (which is not
+    // `Rep` itself when `Rep` undergoes integral promotion): brace-initializing a `Quantity<Unit,
+    // Rep>` from it would be a narrowing conversion, which some compilers reject outright.
+    friend constexpr auto operator%(Quantity a, Quantity b) {
+        return make_quantity<UnitT>(a.value_ % b.value_);
+    }
 
     // Unary plus and minus.
-    constexpr Quantity operator+() const { return {+value_}; }
-    constexpr Quantity operator-() const { return {-value_}; }
+    constexpr auto operator+() const { return make_quantity<UnitT>(+value_); }
+    constexpr auto operator-() const { return make_quantity<UnitT>(-value_); }
 
     // Automatic conversion to Rep for Unitless type.
     template <typename U = UnitT, typename = std::enable_if_t<IsUnitlessUnit<U>::value>>
